@@ -107,20 +107,25 @@ Theorem C01_mirror_step_descriptor_all : forall m t c,
 Proof. exact mirror_step_descr_all. Qed.
 Print Assumptions C01_mirror_step_descriptor_all.
 
-(* every accepted body of add / update / remove descriptor and get_state calls that passes the conflict check of
-   process_transaction is well-formed on an MDIB whose parent handles exist; no obligation on the calls is left *)
+(* every accepted body of add / update / remove descriptor and get_state calls that passes the two checks
+   process_transaction makes before it changes anything (nothing created / updated inside a removed subtree, no
+   descriptor created below a parent that neither exists nor is created) is well-formed on an MDIB whose parent
+   handles exist, and creates no orphan; no obligation on the calls is left *)
 Theorem C01_descr_body_wellformed : forall m acts t,
-  descr_only acts -> body 6 m empty_tx acts = Ok t -> subtree_conflict m t = false -> tree_ok m -> dtx_ok m t.
+  descr_only acts -> body 6 m empty_tx acts = Ok t -> subtree_conflict m t || orphan_create m t = false ->
+  tree_ok m -> dtx_ok m t /\ dpar_ok m t.
 Proof. exact descr_body_wellformed. Qed.
 Print Assumptions C01_descr_body_wellformed.
 
-(* tree_ok is kept by a commit that creates no orphan (dpar_ok: the parent of a created descriptor exists or is
-   given by the same transaction - the library's own lookup of the source MDS enforces this for every descriptor
-   whose SourceMds the application has not preset) *)
+(* hence tree_ok is kept by every commit (dpar_ok is what the orphan check gives: [orphan_create_dpar_ok]) *)
 Theorem C01_descr_tree_preserved : forall m t, pm_ok m -> dtx_ok m t ->
   t_d t <> [] -> tree_ok m -> dpar_ok m t -> tree_ok (commit_descr m t).
 Proof. exact commit_descr_tree_ok. Qed.
 Print Assumptions C01_descr_tree_preserved.
+
+Theorem C01_orphan_check : forall m t, orphan_create m t = false -> dpar_ok m t.
+Proof. exact orphan_create_dpar_ok. Qed.
+Print Assumptions C01_orphan_check.
 
 (* dtx_ok can be evaluated: boolean twin *)
 Theorem C01_dtx_okb_sound : forall m t, dtx_okb m t = true -> dtx_ok m t.
@@ -128,10 +133,11 @@ Proof. exact dtx_okb_sound. Qed.
 Print Assumptions C01_dtx_okb_sound.
 
 (* every finite history of state transactions (any kind), context transactions without deletions through the
-   entity interface, and descriptor transactions of ANY add / update / remove / get_state calls that create no
-   orphan - rejected calls, aborts, empty transactions, nested removals and transactions refused by the conflict
-   check included - with the reports processed in emission order: mirror after every prefix
-   (sys_ok = mirrors /\ cdom_ok /\ pm_ok /\ tree_ok /\ sequence and instance id) *)
+   entity interface, and descriptor transactions of ANY add / update / remove / get_state calls (txn_ok for kind 6 is
+   just descr_only) - rejected calls, aborts, empty transactions, nested removals and transactions refused by the
+   conflict / orphan checks included - with the reports processed in emission order: mirror after every prefix.
+   sys_ok = mirrors /\ cdom_ok /\ pm_ok /\ tree_ok /\ sequence and instance id; it is required of the initial pair
+   only and holds after every prefix *)
 Theorem C01_mirror_history_all : forall seq inst hist m c,
   hist_ok m hist -> sys_ok seq inst m c ->
   let '(m', c') := fold_left (pc_step3 seq inst) hist (m, c) in
@@ -156,40 +162,44 @@ Example C01_descr_nonvacuous :
      transaction that removes 2 and creates 7 below it - refused by the conflict check *)
   let acts := [ADAdd 4 (Some 1) K_METRIC 15 25; ADUpd 2 16; ADState 2 26; ADDel 6; ADDel 3; ADUpd 5 17] in
   let bad := [ADDel 2; ADAdd 7 (Some 2) K_ALERT 18 28] in
+  let orphan := [ADAdd 8 (Some 99) K_METRIC 19 29] in     (* 99 neither exists nor is created: refused *)
   let hist := [(6, @None nat, acts); (K_METRIC, @None nat, [AState 4 42]); (5, @None nat, [ACtxGet 50 31 None]);
-               (6, @None nat, bad)] in
+               (6, @None nat, bad); (6, @None nat, orphan)] in
   sys_ok 1 1 m (mirror_of m 1 1) /\ hist_ok m hist /\
   (exists t, body 6 m empty_tx acts = Ok t /\ dtx_okb m t = true /\ t_d t <> [] /\
      map fst (tx_updated m t) = [1; 2; 5] /\ map fst (tx_created m t) = [4] /\ map fst (tx_deleted m t) = [6; 3]) /\
   (exists t, body 6 (exec m (firstn 3 hist)) empty_tx bad = Ok t /\ subtree_conflict (exec m (firstn 3 hist)) t = true /\
      snd (transaction 6 None bad (exec m (firstn 3 hist))) = 3) /\
+  (exists t, body 6 (exec m (firstn 4 hist)) empty_tx orphan = Ok t /\ orphan_create (exec m (firstn 4 hist)) t = true /\
+     subtree_conflict (exec m (firstn 4 hist)) t = false /\ snd (transaction 6 None orphan (exec m (firstn 4 hist))) = 3) /\
   let '(m', c') := fold_left (pc_step3 1 1) hist (m, mirror_of m 1 1) in
   ver m' = 10 /\ cm_ver c' = 10 /\ descrs m' 3 = None /\ cm_descrs c' 3 = None /\ cm_states c' 6 = None /\
   cm_descrs c' 1 = Some (mkDescr None K_COMP 1 10) /\ cm_states c' 2 = Some (mkState 1 4 26) /\
-  cm_descrs c' 7 = None /\
+  cm_descrs c' 7 = None /\ cm_descrs c' 8 = None /\ descrs m' 8 = None /\
   cm_states c' 4 = Some (mkState 0 1 42) /\ cm_cstates c' 50 = Some (mkCState 5 1 4 2 (Some 1) None 31).
 Proof.
   cbv zeta.
   match goal with |- sys_ok _ _ ?m0 _ /\ _ => set (m := m0) end.
   assert (Hpm : pm_ok m) by (apply pm_ok_alists; reflexivity).
-  split; [|split; [|split; [|split]]].
+  split; [|split; [|split; [|split; [|split]]]].
   - split; [repeat split|]. split; [|split; [exact Hpm|split; [|split; reflexivity]]].
     + split; [exact (pm_dd _ Hpm)|exact (pm_cd _ Hpm)].
     + intros h d p Eh Ep. cbn [descrs m] in Eh |- *. apply alist_get_some_in in Eh. cbn in Eh.
       repeat (destruct Eh as [Eh|Eh]; [injection Eh as <- <-; cbn in Ep; try discriminate; injection Ep as <-; vm_compute; discriminate|]).
       contradiction.
-  - split; [|split; [|split; [|split; [|exact I]]]].
-    + right. right. split; [reflexivity|]. split.
-      * intros a Ha. cbn in Ha. repeat (destruct Ha as [<-|Ha]; [exact I|]). contradiction.
-      * intros t B. vm_compute in B. injection B as <-. apply dpar_okb_sound. vm_compute. reflexivity.
+  - split; [|split; [|split; [|split; [|split; [|exact I]]]]].
+    + right. right. split; [reflexivity|].
+      intros a Ha. cbn in Ha. repeat (destruct Ha as [<-|Ha]; [exact I|]). contradiction.
     + left. split; [unfold K_METRIC; lia|]. intros a [<-|[]]. now exists 4, 42.
     + right. left. split; [reflexivity|]. split; [intros a [<-|[]]; exact I|]. split.
       * intros dh h assoc p [Ha|[]]. discriminate.
       * intros t B. vm_compute in B. injection B as <-. intros h [Hi|[]]. discriminate.
-    + right. right. split; [reflexivity|]. split.
-      * intros a Ha. cbn in Ha. repeat (destruct Ha as [<-|Ha]; [exact I|]). contradiction.
-      * intros t B. vm_compute in B. injection B as <-. apply dpar_okb_sound. vm_compute. reflexivity.
+    + right. right. split; [reflexivity|].
+      intros a Ha. cbn in Ha. repeat (destruct Ha as [<-|Ha]; [exact I|]). contradiction.
+    + right. right. split; [reflexivity|].
+      intros a Ha. cbn in Ha. repeat (destruct Ha as [<-|Ha]; [exact I|]). contradiction.
   - eexists. split; [vm_compute; reflexivity|]. vm_compute. repeat split; discriminate.
   - eexists. split; [vm_compute; reflexivity|]. vm_compute. split; reflexivity.
+  - eexists. split; [vm_compute; reflexivity|]. vm_compute. repeat split.
   - vm_compute. repeat split.
 Qed.
